@@ -68,7 +68,7 @@ class Parser:
         self.builtins = builtins
         self.pos = 0
         grammar = tokens[-1].grammar if tokens else ""
-        self.eof = Token(TokenKind.EOI, "", -1, grammar)
+        self.eof = Token(TokenKind.EOI, "", len(grammar), grammar)
 
     def current(self) -> Token:
         try:
